@@ -20,7 +20,7 @@ PROPS = {
         # lowering's two arithmetic arms and the checker's compound arm are under contract in the units above)
         'bounded_standins': [
             {'oracle': 'diffrun::C04', 'cases': 0, 'functions': 40, 'programs_quick': 1, 'programs_thorough': 6, 'function': 'the whole pipeline (lexer, parser, checker, lowering, code generator, project generator, rustc, the program) on / // % in 12 statement / operand shapes (nested, mixed with + - *, int(..), let, compound on local / field / element, lambda, bare statement) over 22 operand forms',
-             'bound': 'a seeded SAMPLE (not exhaustive): 1 program (quick) / 6 programs (thorough) of 40 generated test functions each, every function called with 3 argument sets; the program must build (rustc judges the declared numeric kind of every expression) and every printed value must equal the documented semantics computed with Python; shapes that need parentheses around + - * sub-expressions and a few shapes that trip unrelated compiler defects are not generated (listed in tools/diffrun.py)'},
+             'bound': 'a seeded SAMPLE (not exhaustive): 1 program (quick) / 6 programs (thorough) of 40 generated test functions each, every function called with 3 argument sets; the program must build (rustc judges the declared numeric kind of every expression) and every printed value must equal the documented semantics computed with Python; plus programs that must stop with the documented error text after printing a marker (C04: 10 zero-divisor forms, C05: 10 out-of-range / zero-step forms; one per quick run, all in a thorough run); shapes that need parentheses around + - * sub-expressions and a few shapes that trip unrelated compiler defects are not generated (listed in tools/diffrun.py)'},
             {'oracle': 'incan::emit_division', 'cases': 132, 'function': 'parser + lowering of `L op R` / `T op= R` (compound assignment on locals, fields and list elements; const initializers) and emit_binop_expr',
              'bound': 'exhaustive over / // % x int/float left x int/float right x 11 forms (plain, plain with a negated left operand, compound on a local / field / list element, const initializer over literals, bare expression statement, inside int(..), parenthesised operands, call result as left operand, body of a lambda with an untyped parameter); fixed program shapes; checks helper, operand order and promotions in the generated call (a folded const must have Python\'s value)'},
         ],
@@ -61,7 +61,7 @@ PROPS = {
             {'oracle': 'incan::emit_range', 'cases': 155, 'function': 'emit_range_call (call site of the runtime range) and the lowering of for loops over range',
              'bound': 'exhaustive over range(e), range(s, e), range(s, e, k) x {variable, 0, negative literal, 2, expression} per written argument; one fixed program shape; checks argument positions and the defaults 0 / 1 in the generated call'},
             {'oracle': 'diffrun::C05', 'cases': 0, 'functions': 40, 'programs_quick': 1, 'programs_thorough': 6, 'function': 'the whole pipeline (lexer, parser, checker, lowering, code generator, project generator, rustc, the program) on index / slice / range forms (objects: variable, field, call result, nested; slices with random bounds and steps; for over slices; range hashes; nested and element assignment; f-strings; match-bound lists)',
-             'bound': 'a seeded SAMPLE (not exhaustive): 1 program (quick) / 6 programs (thorough) of 40 generated test functions each, every function called with 3 argument sets; the program must build (rustc judges the declared numeric kind of every expression) and every printed value must equal the documented semantics computed with Python; shapes that need parentheses around + - * sub-expressions and a few shapes that trip unrelated compiler defects are not generated (listed in tools/diffrun.py)'},
+             'bound': 'a seeded SAMPLE (not exhaustive): 1 program (quick) / 6 programs (thorough) of 40 generated test functions each, every function called with 3 argument sets; the program must build (rustc judges the declared numeric kind of every expression) and every printed value must equal the documented semantics computed with Python; plus programs that must stop with the documented error text after printing a marker (C04: 10 zero-divisor forms, C05: 10 out-of-range / zero-step forms; one per quick run, all in a thorough run); shapes that need parentheses around + - * sub-expressions and a few shapes that trip unrelated compiler defects are not generated (listed in tools/diffrun.py)'},
             {'oracle': 'incan::multifile_index', 'cases': 8, 'function': 'IrCodegen multi-file generation (try_generate_multi_file / _nested): lowering of an IMPORTED module',
              'bound': 'a helper module with a model and one function next to a main module that imports it, through both multi-file APIs x 4 reads of a field inside the module (list index, str index, list slice, str slice); each must use the runtime helper for the field\'s type'},
             {'oracle': 'incan::emit_slice', 'cases': 287, 'function': 'parser index_or_slice/parse_slice, lowering of Index/Slice, emit_index_expr, emit_slice_expr',
@@ -115,7 +115,7 @@ PROPS = {
             {'oracle': 'incan::static_type', 'cases': 9408, 'function': 'TypeChecker: annotated let / return / call argument of a binary expression',
              'bound': 'exhaustive over 7 operators x int/float operand kinds x int/float annotation x 7 right-operand forms (variable, const, literal, 0, negative literal, parenthesised, double minus) x 4 binding positions (let, return, argument, const initializer) x bare / parenthesised right-hand side x 3 annotation spellings (int / Int / INT); fixed program shapes; accepted iff the annotation is the kind given by the table'},
             {'oracle': 'diffrun::C07', 'cases': 0, 'functions': 40, 'programs_quick': 1, 'programs_thorough': 6, 'function': 'the whole pipeline (lexer, parser, checker, lowering, code generator, project generator, rustc, the program) on + - * ** and comparisons over int / float operands in 22 operand forms (annotated let, compound on local / field, zip / enumerate components, natural-precedence nesting)',
-             'bound': 'a seeded SAMPLE (not exhaustive): 1 program (quick) / 6 programs (thorough) of 40 generated test functions each, every function called with 3 argument sets; the program must build (rustc judges the declared numeric kind of every expression) and every printed value must equal the documented semantics computed with Python; shapes that need parentheses around + - * sub-expressions and a few shapes that trip unrelated compiler defects are not generated (listed in tools/diffrun.py)'},
+             'bound': 'a seeded SAMPLE (not exhaustive): 1 program (quick) / 6 programs (thorough) of 40 generated test functions each, every function called with 3 argument sets; the program must build (rustc judges the declared numeric kind of every expression) and every printed value must equal the documented semantics computed with Python; plus programs that must stop with the documented error text after printing a marker (C04: 10 zero-divisor forms, C05: 10 out-of-range / zero-step forms; one per quick run, all in a thorough run); shapes that need parentheses around + - * sub-expressions and a few shapes that trip unrelated compiler defects are not generated (listed in tools/diffrun.py)'},
             {'oracle': 'incan::multifile_promotion', 'cases': 6, 'function': 'IrCodegen multi-file generation (try_generate_multi_file / _nested): lowering of an IMPORTED module',
              'bound': 'a helper module with a model and one function next to a main module that imports it, through both multi-file APIs x 3 arithmetic expressions over int / float fields inside the module; int operands of a float operation must be promoted'},
             {'oracle': 'incan::static_type_sources', 'cases': 112, 'function': 'TypeChecker: typing of operands that come out of typed containers and builtins (check_builtin_call zip / enumerate, index, dict value, len)',
